@@ -26,15 +26,17 @@ def forced_now(s):
 
 def DEFAULT_MARK(s):
     """defaults.rst: a written value is marked `# default:` when it does not come from the user: the option has no
-    prompt at all, or it has no user value (or the user value is overridden by an enabled `set`), its type is
-    known, and -- for a choice member -- the user has not picked a member of that choice"""
+    prompt at all; or it is a member of a choice in which the user has picked nothing (a choice is set by the user as
+    a whole, by picking one member: until then every member's value is inferred, whatever was assigned to the member
+    itself -- otherwise save / load / save is no fix-point, C02); or it is not a choice member, has no user value (or
+    the user value is overridden by an enabled `set`) and its type is known"""
     if all_promptless(s):
         return True
-    if not (s._user_value is None or forced_now(s)):
-        return False
     if s.orig_type == UNKNOWN:
         return False
-    return s.choice is None or s.choice._user_selection is None
+    if s.choice is not None:
+        return s.choice._user_selection is None
+    return s._user_value is None or forced_now(s)
 
 
 # named spec functions (definitions: MARK(s) = DEFAULT_MARK(s), CFGLINE(s) = LINE_CFG(s) for every option s; the
@@ -115,7 +117,8 @@ def hex_prefixed(v):
 
 def LINE_HDR(k, s):
     """one C header entry: nothing for an option that is not written or a bool at n; `#define P_NAME 1` for y,
-    the quoted escaped text for a string, the value for numbers (hex shown with a 0x prefix)"""
+    the quoted escaped text for a string, the value for numbers (hex shown with a 0x prefix; an option without any
+    value keeps its empty value in every format, C06 / C07)"""
     if not written(s):
         return ""
     pn = k.config_prefix + s.name
@@ -125,7 +128,7 @@ def LINE_HDR(k, s):
         return ""
     if s.orig_type == STRING:
         return "#define " + pn + ' "' + ESC(SV(s)) + '"\n'
-    if s.orig_type == HEX and not hex_prefixed(SV(s)):
+    if s.orig_type == HEX and SV(s) != "" and not hex_prefixed(SV(s)):
         return "#define " + pn + " 0x" + SV(s) + "\n"
     return "#define " + pn + " " + SV(s) + "\n"
 
